@@ -58,7 +58,7 @@ class Update:
     """one emitted update of the ledger"""
 
     __slots__ = ("idx", "pt", "status", "inplay", "version", "bet_delay", "bsp_reconciled", "books",
-                 "traded", "traded_delta", "runner_status", "runner_af", "runner_bsp", "kind", "line")
+                 "traded", "traded_delta", "runner_status", "runner_af", "runner_bsp", "kind", "line", "market_time")
 
     def as_dict(self):
         return {k: getattr(self, k) for k in self.__slots__ if k != "line"}
@@ -69,6 +69,7 @@ class Renderer:
         self.spec = spec
         self.prices = ladder_prices(spec)
         self.pt = spec["start_pt"]
+        self.market_time_ms = spec["start_pt"] + spec["market_time_offset_ms"]
         rs = spec["runners"]
         self.defn = {
             "bspMarket": spec["bsp_market"],
@@ -144,6 +145,7 @@ class Renderer:
         u.version = self.defn["version"]
         u.bet_delay = self.defn["betDelay"]
         u.bsp_reconciled = self.defn["bspReconciled"]
+        u.market_time = self.market_time_ms
         u.books = [
             {"atb": sorted(self.atb[i].items(), reverse=True), "atl": sorted(self.atl[i].items())}
             for i in range(len(self.atb))
@@ -295,6 +297,13 @@ class Renderer:
                 if r["status"] != "REMOVED":
                     r["status"] = "ACTIVE"
             self.defn["numberOfActiveRunners"] = sum(1 for x in self.defn["runners"] if x["status"] == "ACTIVE")
+            with_def = True
+        elif k == "retime":
+            # the scheduled start is moved (race delayed / brought forward)
+            self.market_time_ms = self.spec["start_pt"] + step["offset_ms"]
+            self.defn["marketTime"] = iso(self.market_time_ms)
+            self.defn["suspendTime"] = iso(self.market_time_ms)
+            self.defn["version"] += 1
             with_def = True
         elif k == "def":
             self.defn.update(step.get("set", {}))
